@@ -13,6 +13,46 @@ COUNTS = {'self.countPos()': 'p', 'self.countNeg()': 'n', 'self.countNeut()': 'z
           'len(self.seq)': 'N', 'pH is not None': 'false'}
 
 
+def _members(test, var='res'):
+    """`res == 'P' or res == 'E' ...` or `res in [...]` -> list of letters"""
+    if isinstance(test, ast.BoolOp) and isinstance(test.op, ast.Or):
+        out = []
+        for v in test.values:
+            out += _members(v, var)
+        return out
+    need(isinstance(test, ast.Compare) and len(test.ops) == 1 and isinstance(test.left, ast.Name)
+         and test.left.id == var, 'membership test shape: ' + ast.unparse(test)[:60])
+    if isinstance(test.ops[0], ast.Eq):
+        v = const(test.comparators[0])
+        need(isinstance(v, str) and len(v) == 1, 'membership literal')
+        return [v]
+    need(isinstance(test.ops[0], ast.In), 'membership operator')
+    return str_list(test.comparators[0])
+
+
+def _recode_loop(func, acc='newseq'):
+    """for res in self.seq: if <test>: acc = acc + 'A' [elif ...] else: acc = acc + 'B'
+       -> list of (test node or None, letter)"""
+    loops = [n for n in ast.walk(func) if isinstance(n, ast.For) and ast.unparse(n.iter) == 'self.seq'
+             and isinstance(n.target, ast.Name) and n.target.id == 'res']
+    out = []
+    for lp in loops:
+        need(len(lp.body) == 1 and isinstance(lp.body[0], ast.If), 'recode loop body')
+        node, arms = lp.body[0], []
+        while True:
+            need(len(node.body) == 1 and isinstance(node.body[0], ast.Assign)
+                 and ast.unparse(node.body[0]).startswith('%s = %s + ' % (acc, acc)), 'recode arm')
+            arms.append((node.test, const(node.body[0].value.right)))
+            if len(node.orelse) == 1 and isinstance(node.orelse[0], ast.If):
+                node = node.orelse[0]
+            else:
+                need(len(node.orelse) == 1 and ast.unparse(node.orelse[0]).startswith('%s = %s + ' % (acc, acc)), 'recode else arm')
+                arms.append((None, const(node.orelse[0].value.right)))
+                break
+        out.append(arms)
+    return out
+
+
 def _defn(name, params, ty, body):
     return 'Definition %s %s : %s :=\n %s.' % (name, params, ty, body)
 
@@ -120,6 +160,52 @@ def generate(repo):
                 break
         return 'Definition init_pattern : list (string * Z) := %s%%Z.' % coq_list(arms)
     out.add('init_pattern', init_pattern)
+
+    # ---- Omega, Omega_seq, kappa_X, __parse_group
+    def omega():
+        f = S('Omega')
+        loops = _recode_loop(f)
+        need(len(loops) == 1 and len(loops[0]) == 2, 'Omega: one two-armed recode loop expected')
+        (t, a), (_, b) = loops[0]
+        tail = [ast.unparse(x) for x in strip_doc(f.body)[-2:]]
+        need(tail == ['augmented_seq = Sequence(newseq)', 'return augmented_seq.kappa()'], 'Omega tail: %s' % tail)
+        return ('Definition g_omega_members : list aa := %s.\nDefinition g_omega_in : aa := %s.\n'
+                'Definition g_omega_out : aa := %s.' % (coq_list([coq_aa1(c) for c in _members(t)]), coq_aa1(a), coq_aa1(b)))
+    out.add('g_omega', omega)
+
+    def omega_seq():
+        f = S('Omega_seq')
+        loops = _recode_loop(f)
+        need(len(loops) == 1 and len(loops[0]) == 2, 'Omega_seq: one two-armed recode loop expected')
+        (t, a), (_, b) = loops[0]
+        need(ast.unparse(strip_doc(f.body)[-1]) == 'return newseq', 'Omega_seq return')
+        return ('Definition g_omegaseq_members : list aa := %s.\nDefinition g_omegaseq_in : string := %s.\n'
+                'Definition g_omegaseq_out : string := %s.' % (coq_list([coq_aa1(c) for c in _members(t)]), coq_str(a), coq_str(b)))
+    out.add('g_omega_seq', omega_seq)
+
+    def kappa_x():
+        f = S('kappa_X')
+        body = strip_doc(f.body)
+        src = [ast.unparse(x) for x in body]
+        need(src[0] == 'grp1 = self.__parse_group(grp1)', 'kappa_X: grp1 parse')
+        need(src[1].replace('\n', ' ').split() == 'if grp2:     grp2 = self.__parse_group(grp2)'.split(), 'kappa_X: grp2 parse: ' + src[1])
+        need(isinstance(body[2], ast.If) and ast.unparse(body[2].test) == 'grp2', 'kappa_X: branch on grp2')
+        need(src[3:] == ['augmented_seq = Sequence(newseq)', 'return augmented_seq.kappa()'], 'kappa_X tail')
+        loops = _recode_loop(f)
+        need(len(loops) == 2 and len(loops[0]) == 3 and len(loops[1]) == 2, 'kappa_X: recode loops')
+        (t1, a), (t2, b), (_, c) = loops[0]
+        (t3, d), (_, e) = loops[1]
+        need([ast.unparse(t) for t in (t1, t2, t3)] == ['res in grp1', 'res in grp2', 'res in grp1'], 'kappa_X: tests')
+        return 'Definition g_kappaX_letters : list aa := %s.' % coq_list([coq_aa1(x) for x in (a, b, c, d, e)])
+    out.add('g_kappaX', kappa_x)
+
+    def parse_group():
+        f = S('_Sequence__parse_group') if False else find_func(tree, '__parse_group', 'Sequence')
+        src = ast.unparse(f)
+        need('localgrp = set([x.upper() for x in localgrp])' in src, '__parse_group: upper-casing set')
+        need('if res not in aminoacids.TWENTY_AAs:' in src and 'return localgrp' in src, '__parse_group: membership in TWENTY_AAs')
+        return 'Definition g_parse_group_uppercases_and_checks_twenty : bool := true.'
+    out.add('g_parse_group', parse_group)
 
     # ---- phasePlotRegion cascade, over Q and over binary64
     def region(be, name):
